@@ -61,6 +61,8 @@ SubRepl == Unrelated \cup
              VDict(<<KV(VStr(<<122, 122>>), VDict(<<KV(VEllipsis, VNone)>>))>>),
              \* non-finite floats are floats: as members they reach from_native
              VInf, VList(<<VNegInf>>),
+             \* a UUID that is not version 4: no schema for it
+             VUuid(1, 0),
              \* keys whose text could mean something to a DSL or a formatter
              VDict(<<KV(VStr(<<97, 63>>), VBool(FALSE)), KV(VStr(<<123, 125>>), VInt(1))>>) }
 
